@@ -185,7 +185,7 @@ def check_property_theorems(pid):
     return res
 
 
-def run_cases(pid, chk_module, case_terms, shard=400, extra_imports=(), check_fn='check', timeout=900):
+def run_cases(pid, chk_module, case_terms, shard=400, extra_imports=(), check_fn='check', timeout=900, case_type=None):
     """Evaluate `check` of chk_module on every case inside Coq; return {index: code} for codes != 0.
     case_terms: list of Gallina terms of type `case`."""
     d = os.path.join(scratch(), 'cases_%s_%d' % (pid, int(time.time() * 1000) % 10**9))
@@ -196,7 +196,7 @@ def run_cases(pid, chk_module, case_terms, shard=400, extra_imports=(), check_fn
         with open(fn, 'w') as f:
             f.write('From ZT Require Import Base %s.\n' % ' '.join((chk_module,) + tuple(extra_imports)))
             f.write('Open Scope bool_scope.\n')
-            f.write('Definition cases : list %s.case := [\n' % chk_module)
+            f.write('Definition cases : list %s := [\n' % (case_type or chk_module + '.case'))
             f.write(';\n'.join(case_terms[k:k + shard]))
             f.write('\n].\n')
             f.write('Eval vm_compute in (codes %s.%s cases).\n' % (chk_module, check_fn))
@@ -341,7 +341,7 @@ def evaluate(mod, cases, rep=None):
     Returns (observations, {index: code})."""
     obs = mod.observe(cases)
     terms = [mod.to_coq(c, o) for c, o in zip(cases, obs)]
-    codes = run_cases(mod.PID, mod.CHK, terms, shard=getattr(mod, 'SHARD', 400), extra_imports=getattr(mod, 'IMPORTS', ()))
+    codes = run_cases(mod.PID, mod.CHK, terms, shard=getattr(mod, 'SHARD', 400), extra_imports=getattr(mod, 'IMPORTS', ()), check_fn=getattr(mod, 'CHECK_FN', 'check'), case_type=getattr(mod, 'CASE_TYPE', None))
     return obs, codes
 
 
@@ -467,7 +467,8 @@ def pick_samples(mod, cases, obs, k=2):
     idx.sort(key=lambda i: len(json.dumps(cases[i], default=str)) + len(json.dumps(obs[i], default=str)))
     # smallest non-trivial case and a median-sized one
     chosen = [idx[0], idx[len(idx) // 2]] if len(idx) > 1 else idx[:1]
-    return [dict(case=cases[i], observation=obs[i]) for i in chosen[:k]]
+    view = getattr(mod, 'sample_view', lambda c, o: dict(case=c, observation=o))
+    return [view(cases[i], obs[i]) for i in chosen[:k]]
 
 
 COMMON_TRUSTED = [
